@@ -351,6 +351,46 @@ def rule_order(rows, prop):
     return findings, n, samples, broken
 
 
+COMBINATORS = ("swap", "dig", "bury", "rotate", "dup")
+
+def rule_extractpos(rows, prop):
+    """R-EXTRACTPOS (C14): get_function_composition folds the sub-compositions of ALL operand positions into one chain
+    (`init * get_function_composition(operand)` with operand = at(operands, (N-1)-I)). By the order facts of R-ORDER a chain
+    f * g applies g to the LEADING operands and puts its result first, and get_function_operands collects the leaves left to
+    right; so a sub-composition taken from an operand position other than 0 consumes leaves that belong to operand 0.
+    Every such composition step therefore has to be tied to the operand position: a constexpr guard on the position
+    (r_index / I) or a position-moving combinator (swap/dig/bury/...) in the same fold body."""
+    findings, n, samples, broken = [], 0, [], []
+    seen = 0
+    for r in rows:
+        fn = r.get("fn", "")
+        if "get_function_composition_t<" not in fn or "(lambda@" not in fn:
+            continue
+        seen += 1
+        facts = r["facts"]
+        # the operand is selected by a position that ranges over every index
+        ranged = any(f["k"] == "local" and f["a"] == "r_index" and "I" in f["b"] for f in facts) or \
+                 any(f["k"] == "call" and re.search(r"at\(%operands,\s*%?(r_index|\$index|I)\b", f.get("b", "")) for f in facts)
+        guards = [f["a"] for f in facts if f["k"] in ("ifconstexpr", "if") and re.search(r"\b(r_index|I)\b\s*(==|!=|<|>)|\b(==|!=|<|>)\s*(r_index|I)\b", f["a"])]
+        combin = [f["a"] for f in facts if f["k"] == "call" and re.sub(r"<.*$", "", f["a"]).split("::")[-1] in COMBINATORS]
+        for f in facts:
+            if f["k"] != "return":
+                continue
+            m = re.match(r"^\(\$init \* (.+)\)$", f["a"].strip())
+            if not m:
+                continue
+            n += 1
+            if ranged and not guards and not combin:
+                findings.append(finding("R-EXTRACTPOS", prop, r, f["a"],
+                    "sub-composition of an operand at ANY position is chained as `init * sub`: the chain applies `sub` to the leading "
+                    "extracted operands, which are the leaves of operand 0 (no position guard, no swap/dig/bury in this fold)", f.get("line")))
+            elif len(samples) < 2:
+                samples.append("R-EXTRACTPOS %s guarded by %s" % (f["a"][:60], (guards + combin)[:1]))
+    if seen == 0:
+        broken.append("R-EXTRACTPOS: no fold lambda of get_function_composition_t found (anchor vanished)")
+    return findings, n, samples, broken
+
+
 def comp_fwd_functional(prop, tier, comp, work):
     t0 = time.time()
     tu, n = gen_umbrella(["nmtools/array/functional"], work, "umb_fun.cpp")
@@ -361,6 +401,8 @@ def comp_fwd_functional(prop, tier, comp, work):
     f, inst, samples = rule_fwd_functional(rows, prop)
     f5, n5, s5, b5 = rule_order(rows, prop)
     f += f5; inst["R-ORDER"] = n5; samples += s5; out["broken"] += b5
+    f6, n6, s6, b6 = rule_extractpos(rows, prop)
+    f += f6; inst["R-EXTRACTPOS"] = n6; samples += s6; out["broken"] += b6
     tot = sum(inst.values())
     out.update(findings=f, instances=inst, evaluations=tot, distinct_nontrivial=tot - len(f), samples=samples, wall_s=round(time.time() - t0, 2))
     return out
